@@ -11,7 +11,7 @@ import os
 from vlib import common, gen, pipeline, unc
 
 COMMENT_T = {"COMMENT", "COMMENT_MULTI", "COMMENT_CPP", "COMMENT_ENDIF", "COMMENT_CPP_ENDIF"}
-EXEMPT_T = COMMENT_T | {"IGNORED", "JUNK", "STRING_MULTI", "STRING", "CHAR", "PREPROC_BODY"}
+EXEMPT_T = COMMENT_T | {"IGNORED", "JUNK", "STRING_MULTI", "STRING", "CHAR"}
 IARF = {"ignore": 0, "add": 1, "remove": 2, "force": 3}
 
 
@@ -77,6 +77,12 @@ def run(ctx):
             lang = rng.choice(["C", "C", "CPP", "JAVA"])
             lines, txt = gen.program(rng, lang, stats=ctx.hist,
                                      layout={"indent": "random", "gaps": "random", "trailing": 0.35, "blanklines": 0.1})
+            if lang != "JAVA" and rng.random() < 0.35:
+                # directive lines continued over a line break with blanks after the backslash; a region; a namespace at the end
+                txt += rng.choice(["#pragma region tail \\  \n    more\n", "#pragma mark x \\ \t \n    y\n#define CONT2(a) f(a); \\   \n   g(a)\n",
+                                   "#error message \\    \n   continued\n"])
+            if lang == "CPP" and rng.random() < 0.3:
+                txt += "namespace tailns {\nint tv;\n}\n"
             k = rng.random()
             if k < 0.3:
                 txt = txt.rstrip("\n")            # no line break at end of file
@@ -94,6 +100,7 @@ def run(ctx):
                         "align_right_cmt_span": rng.choice([0, 3]), "indent_brace": rng.choice([0, 0, 2]),
                         "indent_single_newlines": "false",
                         "disable_processing_nl_cont": rng.choice(["false", "false", "true"]),
+                        "nl_before_namespace": rng.choice([0, 0, 2]), "pp_ignore_define_body": rng.choice(["false", "false", "true"]),
                         "nl_end_of_file": rng.choice(["ignore", "add", "remove", "force"]), "nl_end_of_file_min": rng.choice([0, 1, 2, 3]),
                         "nl_start_of_file": rng.choice(["ignore", "ignore", "add", "remove", "force"]),
                         "nl_start_of_file_min": rng.choice([0, 1, 2])}
@@ -115,6 +122,8 @@ def run(ctx):
                 c = unc.parse_chunk(ln)
                 if c["t"] in EXEMPT_T or c["t"] in ("NEWLINE", "NL_CONT") or not c["txt"]:
                     continue
+                if c["txt"][-1] in (32, 9) and len(c["txt"]) > 1 and c["txt"][-2] == 92:
+                    continue         # one blank kept after a backslash on purpose (TokStrip.lean, strip_keeps_backslash_guard)
                 if c["txt"][-1] in (32, 9, 10, 13):
                     mbad += 1
                     if mbad <= 2:
@@ -137,7 +146,9 @@ def run(ctx):
                     continue
                 obad += _viol(ctx, j, "output line ends in a blank (%s) before the line break of chunk %s, written for chunk %s of type %s"
                               % (last[0], idx, last[2], last[1]),
-                              key={"file": _rel(j), "cfg": _relcfg(j), "kind": "trailing-blank"} if j.meta["kind"] == "corpus" else None)
+                              key={"file": _rel(j), "cfg": _relcfg(j), "kind": "trailing-blank"} if j.meta["kind"] == "corpus" else
+                              ({"kind": "trailing-blank", "type": last[1], "char": "tab" if last[0].endswith("9") else "space"}
+                               if last[1] in ("PREPROC_BODY", "PP_IGNORE") else None))
                 break
             # indentation characters (byte level, whole file; lines inside multi-line comments/strings are skipped via the op trace
             # being too coarse here: only generated programs, whose comments we know, are scanned at byte level)
@@ -190,6 +201,24 @@ def run(ctx):
             lines.append("eatse.edge 0 %d %s %s" % (IARF[o["nl_end_of_file"]], o["nl_end_of_file_min"], n0 if n0 else "-"))
             lines.append("eatse.edge 0 %d %s %s" % (IARF[o["nl_start_of_file"]], o["nl_start_of_file_min"], s0 if s0 else "-"))
         ans = common.run_driver(lines) if lines else []
+        # `fileEdge` presumes do_blank_lines() forces the edge chunk to 1; can_increase_nl() answers true earlier for namespace braces,
+        # and a `tmp` write may raise the edge chunk afterwards: those edges are judged by the direct oracle only (as in C20)
+        from props import c20 as _c20
+        edge_lines, edge_owner, not_forced = [], [], set()
+        for k, j in enumerate(eof_jobs):
+            blks = _c20.blank_blocks(j.res.get("trace") or [])
+            last = blks[-1] if blks else []
+            tmp_written = {w["i"] for bv, bws in last for w in bws if w["i"] != bv["i"]}
+            for bv, _ in last:
+                if bv["head"] == "1" or bv["tail"] == "1":
+                    which = "start" if bv["head"] == "1" else "end"
+                    edge_lines.append(_c20.caninc_request(bv, j.vals))
+                    edge_owner.append((k, which))
+                    if bv["i"] in tmp_written:
+                        not_forced.add((k, which))
+        for (k, which), a in zip(edge_owner, common.run_driver(edge_lines) if edge_lines else []):
+            if a == "1":
+                not_forced.add((k, which))
         ebad = 0
         for k, j in enumerate(eof_jobs):
             nlb = {"a": b"\n", "d.a": b"\r\n", "d": b"\r"}[j.hdr["newline"]]
@@ -201,7 +230,7 @@ def run(ctx):
             for which, got, model, opt, mn in (("end", got_e, ans[2 * k], o["nl_end_of_file"], o["nl_end_of_file_min"]),
                                                ("start", got_s, ans[2 * k + 1], o["nl_start_of_file"], o["nl_start_of_file_min"])):
                 direct_bad = (opt == "force" and got != mn) or (opt == "remove" and got != 0) or (opt == "add" and got < mn)
-                if str(got) != model or direct_bad:
+                if (str(got) != model and (k, which) not in not_forced) or direct_bad:
                     ebad += 1
                     if ebad <= 3:
                         _viol(ctx, j, "nl_%s_of_file=%s min=%s: %d line breaks at the %s of the output, model says %s"
